@@ -335,19 +335,24 @@ impl ParallelParquetSource {
         };
         if ipc_serves {
             if let Some(Some(dir)) = self.ipc_dirs.get(work.file_idx) {
-                let mut batches = crate::storage::ipc_cache::read_row_group(
+                // A sidecar that cannot be read (another process republished
+                // or removed it after `ensure_sidecar` handed it out) is
+                // treated like a sidecar that does not exist: decode the row
+                // group from Parquet below.
+                if let Ok(mut batches) = crate::storage::ipc_cache::read_row_group(
                     dir,
                     work.row_group_idx,
                     self.projection.as_deref(),
                     None,
-                )?;
-                if let Some((expr, _)) = &self.row_filter {
-                    if !work.filter_all_true {
-                        batches = crate::physical::operators::filter_batches(batches, expr)?;
+                ) {
+                    if let Some((expr, _)) = &self.row_filter {
+                        if !work.filter_all_true {
+                            batches = crate::physical::operators::filter_batches(batches, expr)?;
+                        }
                     }
+                    batches = crate::storage::ipc_cache::reslice_large(batches, 16384, 8192);
+                    return Ok(batches);
                 }
-                batches = crate::storage::ipc_cache::reslice_large(batches, 16384, 8192);
-                return Ok(batches);
             }
         }
         let builder = match &self.dict_schema {
